@@ -265,11 +265,16 @@ Section Reader.
             let max_bmp_pfn := bmp_len * 8 in
             let max_pfn := if max_bmp_pfn <? pa_max_pfn a then max_bmp_pfn else pa_max_pfn a in
             let bm := rd (ex_fidx e0) (pa_bmp_pos a) bmp_len in
-            Ok {| sd_block_size := pa_block_size a;
-                  sd_ptr_size := match pa_ptr a with Some p => p | None => 0 end;
-                  sd_max_pfn := max_pfn;
-                  sd_regions := regions_from_bitmap true bm 0 max_bmp_pfn 0 SADUMP_PAGE_SIZE;
-                  sd_ext := pa_ext a; sd_nfiles := nf |}
+            (* pfn_regions_from_bitmap, MSB 0 numbering: skip_clear_msb0 / skip_set_msb0 *)
+            match regions_of true (pa_bmp_pos a mod 4) bm 0 max_bmp_pfn 0 SADUMP_PAGE_SIZE with
+            | Err e => Err e
+            | Ok rgns =>
+                Ok {| sd_block_size := pa_block_size a;
+                      sd_ptr_size := match pa_ptr a with Some p => p | None => 0 end;
+                      sd_max_pfn := max_pfn;
+                      sd_regions := rgns;
+                      sd_ext := pa_ext a; sd_nfiles := nf |}
+            end
         end
     end.
 
